@@ -17,7 +17,7 @@ ASSUMPTIONS = [
     "foreign schedulers follow the protocol of CounterToken.acquire/release (inter-process lock, recount, write)",
     "several OS processes racing on one directory are covered by the real-process part, not by the engine",
 ]
-MIN_CLASSES = {"quick": {"aborted-start": 800, "foreign-holding": 500, "file-token": 2500}, "thorough": {"aborted-start": 8000, "foreign-holding": 5000}}
+MIN_CLASSES = {"quick": {"aborted-start": 800, "foreign-holding": 500, "file-token": 2000}, "thorough": {"aborted-start": 8000, "foreign-holding": 5000}}
 
 
 def nontrivial(case, H, labels):
